@@ -5,6 +5,7 @@ Monitor: event-log checker over counting handlers and a patched urlopen
 equality of results: one history is replayed under {cache_remote on, off} x
 {default lru caches, pass-through cache functions, lru_cache(1) that evicts}.
 """
+import json
 import random
 from functools import lru_cache
 from urllib.parse import urljoin
@@ -35,7 +36,8 @@ ASSUMPTIONS = ["fault plans are limited to those whose outcome cannot legitimate
 REPORT_COUNTERS = ["histories", "configs_run", "operations", "handler_calls", "handler_successes", "handler_failures",
                    "plan:ok", "plan:fail_once", "plan:fail_always", "docs_with_3plus_fragments", "metaschema_refs_resolved",
                    "store_doc_refs_resolved", "evictions_observed", "wrapped_as_RefResolutionError"]
-TRIPWIRE_EXPECTED = ("urlopen",)     # violations are decided in-worker from these events
+TRIPWIRE_EXPECTED = ("urlopen", "urlopen-served")     # violations are decided in-worker from these events
+URLOPEN_DIR = "vfu://urlopen.example/lib/"
 
 
 class CustomErr(Exception):
@@ -54,7 +56,7 @@ def floors(tier):
     return {"histories": 1500, "configs_run": 9000, "operations": 50000, "handler_successes": 5000, "handler_failures": 1000,
             "plan:ok": 300, "plan:fail_once": 300, "plan:fail_always": 300, "docs_with_3plus_fragments": 500,
             "metaschema_refs_resolved": 2000, "store_doc_refs_resolved": 2000, "evictions_observed": 200,
-            "wrapped_as_RefResolutionError": 1000, "handler_docs_declaring_an_id": 500, "near_identical_url_pairs": 500,
+            "wrapped_as_RefResolutionError": 1000, "handler_docs_declaring_an_id": 500, "near_identical_url_pairs": 500, "documents_via_urlopen_transport": 500,
             "direct_resolutions_content_checked": 5000}
 
 
@@ -104,6 +106,16 @@ def make_world(rng, d):
                 props["u%d" % len(props)] = {"$ref": sp}
                 refs.append(sp)
         distinct_pairs += 1
+    # documents reachable only through the library's urllib fallback (no handler for the scheme; the harness
+    # answers the patched urlopen itself and counts the calls)
+    udocs = {}
+    if rng.random() < 0.5:
+        for k in range(rng.randrange(1, 3)):
+            url = URLOPEN_DIR + "u%d.json" % k
+            udocs[url] = {"definitions": {"f0": g.keyword_schema("type"), "f1": g.keyword_schema("enum")}, "type": rng.choice(["object", "integer"])}
+            for sp in rng.sample([url, url + "#", url + "#/definitions/f0", url + "#/definitions/f1"], 3):
+                props["o%d" % len(props)] = {"$ref": sp}
+                refs.append(sp)
     store = {}
     for k in range(rng.randrange(0, 3)):
         url = "http://store.example/lib/s%d.json" % k
@@ -135,7 +147,7 @@ def make_world(rng, d):
                 inst[n] = rng.choice([1, "s", {}, [], None, 2.5, {"type": "string"}, "object", -1])
         insts.append(inst)
     return dict(d=d, schema=S, hdocs=hdocs, store=store, refs=refs, instances=insts, frag3=frag3, metas=metas,
-                declared_ids=declared_ids, distinct_pairs=distinct_pairs)
+                declared_ids=declared_ids, distinct_pairs=distinct_pairs, udocs=udocs)
 
 
 def gen_history(rng, w):
@@ -194,8 +206,16 @@ def run_config(w, ops, plan, cache_remote, cache):
                                        handlers={"vf": h}, **kw)
     box.append(resolver)
     v = cls(w["schema"], resolver=resolver)
+    ucalls = []
+    tripwire.unserve_all()
+    if w.get("udocs"):
+        def serve(url, w=w, ucalls=ucalls):
+            doc = url.split("#")[0]
+            ucalls.append(doc)
+            return json.dumps(w["udocs"][doc]).encode("utf-8")
+        tripwire.serve(URLOPEN_DIR, serve)
     keys0 = set(resolver.store)
-    net0 = tripwire.count()
+    net0 = tripwire.count("urlopen") + tripwire.count("socket.connect") + tripwire.count("socket.getaddrinfo")
     results = []
     other_exc = []
     for op in ops:
@@ -220,12 +240,14 @@ def run_config(w, ops, plan, cache_remote, cache):
     if cache == "tiny":
         info = resolver._remote_cache.cache_info()
         evicted = max(0, info.misses - 1)
-    return dict(results=results, calls=h.calls, keys0=keys0, keys1=set(resolver.store), net=tripwire.events()[net0:],
+    tripwire.unserve_all()
+    net = [e for e in tripwire.events() if e["event"] in ("urlopen", "socket.connect", "socket.getaddrinfo")][net0:]
+    return dict(results=results, calls=h.calls + [(u, "ok") for u in ucalls], keys0=keys0, keys1=set(resolver.store), net=net,
                 other_exc=other_exc, evicted=evicted, depth=len(resolver._scopes_stack))
 
 
 def check_history(ctx, w, ops, plan):
-    case = {"draft": w["d"], "schema": w["schema"], "handler_docs": w["hdocs"], "store": w["store"], "instances": w["instances"],
+    case = {"draft": w["d"], "schema": w["schema"], "handler_docs": w["hdocs"], "urlopen_docs": w.get("udocs") or {}, "store": w["store"], "instances": w["instances"],
             "history": ops, "plan": plan}
     ctx.count("histories")
     ctx.case(case)
@@ -234,6 +256,7 @@ def check_history(ctx, w, ops, plan):
     ctx.count("docs_with_3plus_fragments", w["frag3"])
     ctx.count("handler_docs_declaring_an_id", w.get("declared_ids", 0))
     ctx.count("near_identical_url_pairs", w.get("distinct_pairs", 0))
+    ctx.count("documents_via_urlopen_transport", len(w.get("udocs") or {}))
     outs = {}
     for cr, cache in CONFIGS:
         ctx.count("configs_run")
@@ -265,10 +288,11 @@ def check_history(ctx, w, ops, plan):
     # what a direct resolution must return: the addressed part of the intended document (own pointer walk)
     from vf.model import uri as U
     alldocs = dict(w["hdocs"])
+    alldocs.update(w.get("udocs") or {})
     for k_, v_ in w["store"].items():
         alldocs[k_.split("#")[0]] = v_
     for n_, op in enumerate(ops):
-        if op["op"] == "validate" or not str(op.get("ref", "")).startswith(("vf:", "http://store.example")):
+        if op["op"] == "validate" or not str(op.get("ref", "")).startswith(("vf:", "vfu:", "http://store.example")):
             continue
         doc_url, frag = U.defrag(op["ref"])
         if doc_url not in alldocs:
@@ -315,5 +339,5 @@ def replay(ctx, rec):
     impl.quiet()
     c = rec["case"]
     w = dict(d=c["draft"], schema=c["schema"], hdocs=c["handler_docs"], store=c["store"], instances=c["instances"],
-             refs=[], frag3=0, metas=[])
+             refs=[], frag3=0, metas=[], udocs=c.get("urlopen_docs") or {})
     check_history(ctx, w, c["history"], c["plan"])
